@@ -102,9 +102,11 @@ func VerifH_C14_atomic() {
 	w := newPoolWorld(1, 2)
 	n := vapi.Int("set", 1, 3)
 	var set []types.V2Transaction
+	var standalone []bool // fresh, independent of the rest of the set
 	allPooled := true
 	nFresh := 0
 	for i := 0; i < n; i++ {
+		standalone = append(standalone, false)
 		switch vapi.Int("kind", 0, 3) {
 		case 0: // fresh, validity symbolic
 			t := newV2(w.tag(), nil, w.parent())
@@ -113,6 +115,7 @@ func VerifH_C14_atomic() {
 			set = append(set, t)
 			allPooled = false
 			nFresh++
+			standalone[i] = true
 		case 1: // already pooled
 			if len(w.v2) == 0 {
 				vapi.Assume(false)
@@ -143,6 +146,16 @@ func VerifH_C14_atomic() {
 		vapi.Reach("rejected")
 		vapi.Assert("atomic.error-adds-nothing", sameIDs(pre2, post2))
 		vapi.Assert("atomic.error-not-known", !known)
+		// ... and leaves no trace: a member that is valid on its own is accepted
+		// when it is submitted again alone
+		for i := range set {
+			if standalone[i] && !absP.txBad[v2tag(set[i])] && !absP.elemBad[v2tag(set[i])] {
+				_, e := w.c.m.AddV2PoolTransactions(w.c.m.Tip(), []types.V2Transaction{set[i]})
+				vapi.Assert("atomic.rejection-leaves-no-trace", e == nil)
+				post2 = v2ids(w.c.m.V2PoolTransactions())
+				break
+			}
+		}
 	} else if known {
 		vapi.Reach("known")
 		vapi.Assert("atomic.known-iff-all-pooled", allPooled)
